@@ -7,6 +7,14 @@ CHECKS = {
    technique="explicit-state exploration of the product of reference (Brzozowski-derivative) automaton and the real NFA / token-pipeline DFA per enumerated pattern",
    text="For every pattern tree below the size bound (and every class/escape/bracket/quantifier form, and the predefined patterns) the real nfa.Parse automaton and the real Spec.DFA pipeline automaton are compared with a reference automaton by exhaustive exploration of their product over ASCII\\{NUL} plus non-ASCII probes: language equality per pattern, complete for the explored alphabet.",
    note="Trusted: the reference class tables and derivative matcher (self-tested on every run against Go's regexp on the shared syntax subset and against the reference parser); NUL is not in the compared alphabet."),
+ "C09": dict(level="exploration", design="§4 C09",
+   technique="bounded-exhaustive enumeration of pattern strings against a context-free membership oracle for the documented grammar",
+   text="Every string up to the length bound over an alphabet containing every metacharacter, every canonical print of the C02 pattern trees, and every single-character edit of the small prints is given to nfa.Parse and (regex) ast.Parse; acceptance requires that the whole string be derivable in the documented grammar (decided by a memoised CFG recogniser that admits any derivation), canonical prints must be accepted, meaningless ranges must be rejected with the range named, and the two entry points must agree.",
+   note="Trusted: the transcription of the pattern grammar from docs/5-definitions.md in ref/patgram; `char` read as any character (most permissive)."),
+ "C10": dict(level="model_checking", design="§4 C10",
+   technique="explicit-state exploration of the three-way product automaton (reference, NFA route, followpos route) per enumerated pattern",
+   text="For the C02 pattern space plus closed families of nullable operands and repetition ranges, the automata produced by nfa.Parse and by (regex) ast.Parse(p).ToDFA() are each compared with the reference automaton by exhaustive product exploration: full language equality per pattern over the explored alphabet.",
+   note="Trusted: same reference as C02. The NFA route inherits the known finding nul-epsilon (rune 0 is the library's ε); the followpos route must equal the reference exactly."),
 }
 
 NOT_YET = {}
